@@ -471,6 +471,68 @@ fn scalar_forms(ctx: &mut Ctx) {
                 expect_nat(ctx, "BigUint u128(2 digits)%&b", &args, x, &r2);
             }
         }
+        // BigInt with signed scalars on either side (truncating convention), i32 / i64 / i128
+        for &s in &scal {
+            for (sb, x) in [(false, &b.pos), (true, &b.neg)] {
+                let xi = Int::new(sb, b.n.clone());
+                for ts in [s as i128, -(s as i128), ((s as i128) << 63) | 5, -(((s as i128) << 63) | 5)] {
+                    ctx.case();
+                    let ti = Int::from_i128(ts);
+                    let iargs = || vec![format!("x={}", xi.to_hex()), format!("s={}", ts)];
+                    if ts != 0 {
+                        ctx.nontrivial(1);
+                        let (q, r) = xi.divrem_trunc(&ti);
+                        let v = call(ctx, || x / ts);
+                        expect_int(ctx, "BigInt &x/i128", &iargs, v, &q);
+                        let v = call(ctx, || x % ts);
+                        expect_int(ctx, "BigInt &x%i128", &iargs, v, &r);
+                        let v = call(ctx, || {
+                            let mut t = x.clone();
+                            t /= ts;
+                            t
+                        });
+                        expect_int(ctx, "BigInt x/=i128", &iargs, v, &q);
+                        let v = call(ctx, || {
+                            let mut t = x.clone();
+                            t %= ts;
+                            t
+                        });
+                        expect_int(ctx, "BigInt x%=i128", &iargs, v, &r);
+                        if let Ok(t64) = i64::try_from(ts) {
+                            let v = call(ctx, || x / t64);
+                            expect_int(ctx, "BigInt &x/i64", &iargs, v, &q);
+                            let v = call(ctx, || x.clone() % t64);
+                            expect_int(ctx, "BigInt x%i64", &iargs, v, &r);
+                            if let Ok(t32) = i32::try_from(ts) {
+                                let v = call(ctx, || x / t32);
+                                expect_int(ctx, "BigInt &x/i32", &iargs, v, &q);
+                                let v = call(ctx, || x % t32);
+                                expect_int(ctx, "BigInt &x%i32", &iargs, v, &r);
+                            }
+                        }
+                    }
+                    if !xi.is_zero() {
+                        let (q, r) = ti.divrem_trunc(&xi);
+                        let v = call(ctx, || ts / x);
+                        expect_int(ctx, "BigInt i128/&x", &iargs, v, &q);
+                        let v = call(ctx, || ts % x);
+                        expect_int(ctx, "BigInt i128%&x", &iargs, v, &r);
+                        if let Ok(t64) = i64::try_from(ts) {
+                            let v = call(ctx, || t64 / x.clone());
+                            expect_int(ctx, "BigInt i64/x", &iargs, v, &q);
+                            let v = call(ctx, || t64 % x);
+                            expect_int(ctx, "BigInt i64%&x", &iargs, v, &r);
+                            if let Ok(t32) = i32::try_from(ts) {
+                                let v = call(ctx, || t32 / x);
+                                expect_int(ctx, "BigInt i32/&x", &iargs, v, &q);
+                                let v = call(ctx, || t32 % x);
+                                expect_int(ctx, "BigInt i32%&x", &iargs, v, &r);
+                            }
+                        }
+                    }
+                }
+            }
+        }
         ctx.sample(|| format!("big={} with every scalar of the scalar alphabet on either side", b.n.to_hex()));
     }
 }
